@@ -191,6 +191,7 @@ struct Ctl<'a> {
     proc_: ServerProc,
     flag_stored: bool,
     main_in_join: bool,
+    last_wait: Vec<String>,
     trace: Vec<String>,
     // enabling bookkeeping
     wake: Vec<bool>,
@@ -233,6 +234,7 @@ impl<'a> Ctl<'a> {
             proc_,
             flag_stored: false,
             main_in_join: false,
+            last_wait: vec![],
             trace: vec![],
             wake: vec![scn.idle_iteration; scn.workers],
             reporter_wake: true,
@@ -405,6 +407,7 @@ impl<'a> Ctl<'a> {
             self.reporter_wake = false;
         }
         let what = format!("{} after {}({})", expect.join("+"), kind, arg);
+        self.last_wait = expect.clone();
         self.wait_for(&what, &|c: &Ctl| expect.iter().all(|n| c.settled(n)))?;
         // main blocked in join parks at main_done once every thread is gone
         if self.main_in_join && self.threads.iter().filter(|(n, _)| n.as_str() != "main").all(|(_, t)| t.exited.is_some()) && self.threads.len() > 1 {
@@ -418,6 +421,31 @@ impl<'a> Ctl<'a> {
             }
         }
         Ok(())
+    }
+
+    /// `release`, but a thread that does not reach its next point is examined instead of being
+    /// reported as a controller failure. Either it waits for something a thread parked by the
+    /// controller holds (then the controller is in the way: machinery error), or it is blocked for
+    /// good. Decided on the real process: the scheduler gets out of the way (every thread runs
+    /// freely) and the waited-for threads are watched. Ok(Some(description)) = blocked for good.
+    fn release_or_stuck(&mut self, a: &Actor) -> Result<Option<String>, String> {
+        let e = match self.release(a) {
+            Ok(()) => return Ok(None),
+            Err(e) => e,
+        };
+        if !e.starts_with("controller timeout") || self.exited().is_some() {
+            self.proc_.kill();
+            return Err(e);
+        }
+        let waiting: Vec<String> = self.last_wait.iter().filter(|n| !self.settled(n)).cloned().collect();
+        let before = self.trace.len();
+        self.free_run(IO_TIMEOUT);
+        let progressed = self.trace[before..].iter().any(|t| waiting.iter().any(|n| t.starts_with(&format!("{}@", n)) || t.starts_with(&format!("{}!", n))));
+        if progressed || self.exited().is_some() {
+            self.proc_.kill();
+            return Err(format!("{} (the thread moved on once every parked thread was released: a hook point sits inside a critical section)", e));
+        }
+        Ok(Some(format!("{:?} released and never reached another point: not while every other thread was held ({} s), nor during {} s with every thread running freely; the process is alive and blocked", waiting, IO_TIMEOUT.as_secs(), IO_TIMEOUT.as_secs())))
     }
 
     fn target_worker(&self, client: usize) -> Option<usize> {
@@ -572,6 +600,7 @@ pub fn run_execution(scn: &Scenario, slot: &Slot, prefix: &[usize], prefix_sig: 
     let mut steps: Vec<StepRec> = vec![];
     let mut running: Option<Actor> = None;
     let mut abstract_states = vec![];
+    let mut stuck: Option<String> = None;
     let end;
     loop {
         if let Some((code, sig)) = c.exited() {
@@ -614,13 +643,22 @@ pub fn run_execution(scn: &Scenario, slot: &Slot, prefix: &[usize], prefix_sig: 
         abstract_states.push(c.abstract_state());
         if actor == Actor::Env {
             c.do_env()?;
-        } else {
-            c.release(&actor)?;
+        } else if let Some(m) = c.release_or_stuck(&actor)? {
+            stuck = Some(format!("step {} ({}): {}", k, steps.last().map(|s| s.action.clone()).unwrap_or_default(), m));
+            end = "stuck".to_string();
+            break;
         }
         running = Some(actor);
     }
     // ---- judge on the real process
     let mut violations: Vec<(String, String, String)> = vec![];
+    if let Some(m) = stuck {
+        let clause = if scn.expect == Expect::Serving { "start-hang" } else { "deadlock-after-signal" };
+        violations.push((clause.into(), "thread-blocked".into(), m));
+        let trace = c.trace.clone();
+        c.proc_.kill();
+        return Ok(Execution { steps, end, trace, violations, abstract_states, outcome_class: "stuck".into() });
+    }
     let stderr_now = c.proc_.stderr();
     let panicked: Vec<String> = c.threads.iter().filter(|(_, t)| t.exited.as_deref() == Some("panic")).map(|(n, _)| n.clone()).collect();
     let mut class = end.clone();
@@ -910,6 +948,17 @@ pub fn explore(
         if sa != sb || a.end != b.end {
             return Err(format!("determinism self-test failed for scenario {}: {:?} ({}) vs {:?} ({})", scn.name, sa, a.end, sb, b.end));
         }
+        // the default schedule is an execution like any other (and is run again below unless the
+        // wall cap is used up by then)
+        for (clause, site, msg) in &a.violations {
+            ctx.violation(clause, site, property_site, json!({"kind":"schedule","scenario":scn.to_json(),"choices":a.steps.iter().map(|s| s.chosen).collect::<Vec<_>>(),"schedule":a.steps.iter().map(|s| s.action.clone()).collect::<Vec<_>>(),"end":a.end,"message":msg}));
+        }
+        if a.end == "stuck" {
+            let mut sum = SchedSummary::default();
+            sum.executions = 2;
+            sum.caps_hit.push(format!("scenario {}: the default schedule blocks for good; no deviation explored", scn.name));
+            return Ok(sum);
+        }
     }
 
     std::thread::scope(|s| {
@@ -991,7 +1040,9 @@ pub fn explore(
                                 // preemptions are recounted over the whole execution (it includes the prefix)
                                 let mut pre = 0usize;
                                 let mut children = vec![];
-                                for i in 0..x.steps.len() {
+                                // (a blocked process has no continuation worth deviating from)
+                                let nsteps = if x.end == "stuck" { 0 } else { x.steps.len() };
+                                for i in 0..nsteps {
                                     let st = &x.steps[i];
                                     let n_enabled = st.enabled[0].split(',').count();
                                     if i >= w.prefix.len() {
@@ -1382,8 +1433,9 @@ fn replay_named(scn: &Scenario, slot: &Slot, g: &ModelGraph, path: &[(String, St
         };
         if a == Actor::Env {
             c.do_env()?;
-        } else {
-            c.release(&a)?;
+        } else if let Some(m) = c.release_or_stuck(&a)? {
+            c.proc_.kill();
+            return Ok(Some(format!("step {}: the model lets {} complete its action; implementation: {}", k, actor, m)));
         }
         node = next.clone();
     }
